@@ -16,12 +16,19 @@
        on its free branch / when the point lies on edge 0 / when an edge improves
        (box2d_gain_nonneg_partial), and the faithful model DOES lose objective for
        0 < det <= 1e-12 (box2d_gain_refuted, finding F3) resp. 0 < Q < 1e-12 (edge, same family).
-   see the end of the file for the shrinking part.
+     * shrinking: a variable removed by testShrinkVariable admits no improving feasible first-order step
+       at that moment (both problem types); unshrink() restores g = lin - K alpha for ALL variables
+       from the edge gradient (given Inv_edge, Inv_grad on the active set, shrunk variables at a bound).
+   NOT proved (kept as monitored + step-wise corresponded on every run): that updateGradientEdge keeps
+   Inv_edge, that flipCoordinates / the shrink loop keep the invariants, the induction over histories
+   WITH shrinking, and the invariants of the box-constrained step (its sub-solvers are covered below).
+   Full statement wanted (C08_every_history): forall kind shr ops s, Inv s -> wf_run s ops ->
+   Inv (run kind shr s ops) /\ obj s <= obj (run ...); proved: C08_every_history_noshrink for kind = SvmProblem.
    COMPARED / MONITORED on every run (tools/c08.py), not proved: the float instantiation of the same
    model agrees with the real solver step by step; invariants re-evaluated on the implementation's
    snapshots with an independent kernel matrix; float drift. *)
 From Coq Require Import QArith List.
-From SharkV Require Import C08Model C08Defs C08Aux C08Proofs C08ProofsBox.
+From SharkV Require Import C08Model C08Defs C08Aux C07Proofs C08Proofs C08ProofsBox C08ProofsShrink.
 Import ListNotations.
 Open Scope Q_scope.
 
@@ -99,3 +106,25 @@ Theorem C08_box2d_gain_refuted : exists ai aj gi gj Qii Qij Qjj Li Ui Lj Uj : QA
    gain2 qops gi gj Qii Qij Qjj (fst r - ai) (snd r - aj) < 0).
 Proof. exact box2d_gain_refuted. Qed.
 Print Assumptions C08_box2d_gain_refuted.
+
+(* a variable removed by the shrink test cannot take part in an improving feasible step *)
+Theorem C08_shrink_sound_svm : forall (s : qst) (m a : nat),
+  test_shrink qops true s a (largest_up qops s m) (smallest_down qops s m) = true ->
+  (fl s a = true /\ forall d, (d < m)%nat -> fl s d = false -> grad s a - grad s d < 0) \/
+  (fu s a = true /\ forall u, (u < m)%nat -> fu s u = false -> grad s u - grad s a < 0).
+Proof. exact shrink_sound_svm. Qed.
+Print Assumptions C08_shrink_sound_svm.
+
+Theorem C08_shrink_sound_box : forall (s : qst) (a : nat) (lu sd : Q),
+  test_shrink qops false s a lu sd = true ->
+  (fl s a = true /\ grad s a < 0) \/ (fu s a = true /\ 0 < grad s a).
+Proof. exact shrink_sound_box. Qed.
+Print Assumptions C08_shrink_sound_box.
+
+Theorem C08_unshrink_restores : forall (n : nat) (K0 : nat -> nat -> Q), Ksym K0 ->
+  forall s : qst, Inv_grad n K0 s -> Inv_edge n K0 s -> Inv_shrunk n s ->
+  let s' := unshrink qops n K0 s in
+  Inv_grad_all n K0 s' /\ active s' = n /\ alpha s' = alpha s /\ perm s' = perm s /\
+  lin s' = lin s /\ lo s' = lo s /\ hi s' = hi s /\ fl s' = fl s /\ fu s' = fu s /\ gedge s' = gedge s.
+Proof. exact unshrink_restores. Qed.
+Print Assumptions C08_unshrink_restores.
